@@ -332,8 +332,8 @@ def run(prop, tier, seed, n_cases, corpus=()):
     rng = rng_for(seed, 'K1' + prop, tier)
     cases = list(corpus) + [gen_case(rng, prop) for _ in range(n_cases)]
     if prop in ('C12', 'C13'):
-        # the calendar table, exhaustively 1970-01-01 .. 2199-12-31 (84 006 days)
-        for lo in range(0, 84006, 4200):
+        # the calendar table, exhaustively 1678-01-01 .. 2199-12-31 (190 656 days; pandas starts at 1677-09-21)
+        for lo in range(-106650, 84006, 4200):
             cases.append(dict(kind='civil', lo=lo, n=min(4200, 84006 - lo)))
     reals = [execute(c) for c in cases]
     outs = run_driver_json('k1', 'float', [model_line(c) for c in cases])
@@ -359,10 +359,10 @@ def run(prop, tier, seed, n_cases, corpus=()):
                     break
         if c['kind'] == 'civil':
             stats['calendar_days_checked'] += c['n']
-        if c['kind'] == 'eom' and c['start'] < 0:
-            # the model's month arithmetic counts months from January 1970 (its theorems carry `0 <= dayOf start`): a month-end
-            # schedule starting before 1970 is judged by the oracle's independent calendar only
-            hist['eom:before-1970 (oracle only)'] += 1
+        if c['kind'] == 'eom' and c['start'] < -135140 * 86400:
+            # the model counts months from January 1600 (its theorems carry `M0 <= dayOf start`); pandas cannot represent
+            # an instant before 1677-09-21, so this never happens
+            hist['eom:before-1600 (oracle only)'] += 1
         else:
             for x in compare(c, r, m, tally):
                 x['case_index'] = i
